@@ -3,6 +3,7 @@
 package explore
 
 import (
+	"context"
 	"encoding/json"
 	"fmt"
 	"hash/fnv"
@@ -12,6 +13,8 @@ import (
 	"sort"
 	"strconv"
 	"strings"
+	"sync"
+	"syscall"
 	"time"
 
 	"verif/mc/report"
@@ -42,6 +45,26 @@ type Property struct {
 	WorkerProcs int
 	// MinRefOutcomes: vacuity threshold on reference-side outcome classes.
 	MinRefOutcomes int
+	// ItemTimeout: the coordinator's watchdog limit for ONE item of a space
+	// (default 120 s; a typical item takes microseconds to a few seconds). A
+	// worker that sits on the same item for longer is killed and the item is
+	// re-run in isolation; if it hangs again it is a "hang" violation.
+	ItemTimeout func(tier string) time.Duration
+}
+
+func (p *Property) itemTimeout(tier string) time.Duration {
+	if v := os.Getenv("VERIF_ITEM_TIMEOUT_S"); v != "" {
+		if s, err := strconv.Atoi(v); err == nil && s > 0 {
+			return time.Duration(s) * time.Second
+		}
+	}
+	if p.ItemTimeout != nil {
+		return p.ItemTimeout(tier)
+	}
+	if tier == "thorough" {
+		return 900 * time.Second
+	}
+	return 120 * time.Second
 }
 
 var registry = map[string]*Property{}
@@ -76,6 +99,8 @@ type Worker struct {
 	distinct map[uint64]struct{}
 	deadline time.Time
 	curSpace string
+	curIdx   int
+	tier     string
 }
 
 func newWorker(prop string, deadline time.Time) *Worker {
@@ -120,6 +145,15 @@ func (w *Worker) Violation(c *report.Case) {
 	if c.Space == "" {
 		c.Space = w.curSpace
 	}
+	if c.Kind == "item" {
+		// replayable by re-running the item it came from
+		if c.Extra == nil {
+			c.Extra = map[string]interface{}{}
+		}
+		if _, ok := c.Extra["index"]; !ok {
+			c.Extra["tier"], c.Extra["space"], c.Extra["index"] = w.tier, w.curSpace, w.curIdx
+		}
+	}
 	if old, ok := w.Viol[c.Sig]; ok {
 		old.Count++
 		if c.Weight < old.Weight {
@@ -144,6 +178,7 @@ func (w *Worker) Expired() bool { return !w.deadline.IsZero() && time.Now().Afte
 // RunWorker explores shard/nshards of every space and writes the result.
 func RunWorker(p *Property, tier string, shard, nshards int, deadline time.Time, out string) error {
 	w := newWorker(p.ID, deadline)
+	w.tier = tier
 	cur := out + ".cur"
 	curF, _ := os.OpenFile(cur, os.O_CREATE|os.O_WRONLY, 0o644)
 	if curF != nil {
@@ -184,6 +219,7 @@ func RunWorker(p *Property, tier string, shard, nshards int, deadline time.Time,
 				curF.WriteAt([]byte(rec), 0)
 			}
 			t0 := time.Now()
+			w.curIdx = i
 			sp.Run(i, w)
 			if d := time.Since(t0); os.Getenv("VERIF_TIMING") != "" && d > 2*time.Second {
 				lbl := ""
@@ -206,9 +242,11 @@ func RunWorker(p *Property, tier string, shard, nshards int, deadline time.Time,
 // RunItem explores one item (crash reproduction / replay of an item).
 func RunItem(p *Property, tier, space string, idx int) (*Worker, error) {
 	w := newWorker(p.ID, time.Time{})
+	w.tier = tier
 	for _, sp := range p.Spaces(tier) {
 		if sp.Name == space {
 			w.curSpace = sp.Name
+			w.curIdx = idx
 			sp.Run(idx, w)
 			return w, nil
 		}
@@ -342,6 +380,7 @@ func Check(id, tier string) int {
 			nprocs = strconv.Itoa(p.WorkerProcs)
 		}
 		cmd.Env = append(os.Environ(), "GOMAXPROCS="+nprocs)
+		cmd.SysProcAttr = &syscall.SysProcAttr{Pdeathsig: syscall.SIGKILL} // no orphan (possibly hung) workers if the coordinator is killed
 		procs[s] = &proc{cmd: cmd, out: out}
 		if err := cmd.Start(); err != nil {
 			fmt.Fprintln(os.Stderr, err)
@@ -356,18 +395,119 @@ func Check(id, tier string) int {
 		m.SpaceOrder = append(m.SpaceOrder, sp.Name)
 		m.SpaceDesc[sp.Name] = sp.Desc
 	}
-	for _, pr := range procs {
-		pr.err = pr.cmd.Wait()
+	// watchdog: a worker that stays on one item longer than the item timeout is
+	// killed; the item is then re-run in isolation (crashCase) and reported as a
+	// hang if it does not finish there either
+	itemTO := p.itemTimeout(tier)
+	type waitRes struct {
+		i   int
+		err error
+	}
+	waitCh := make(chan waitRes, nsh)
+	for i, pr := range procs {
+		go func(i int, pr *proc) { waitCh <- waitRes{i, pr.cmd.Wait()} }(i, pr)
+	}
+	lastCur := make([]string, nsh)
+	lastChange := make([]time.Time, nsh)
+	hung := make([]bool, nsh)
+	finished := make([]bool, nsh)
+	for i := range lastChange {
+		lastChange[i] = time.Now()
+	}
+	tick := time.NewTicker(time.Second)
+	for left := nsh; left > 0; {
+		select {
+		case r := <-waitCh:
+			procs[r.i].err = r.err
+			finished[r.i] = true
+			left--
+		case <-tick.C:
+			for i, pr := range procs {
+				if finished[i] || hung[i] {
+					continue
+				}
+				b, _ := os.ReadFile(pr.out + ".cur")
+				if c := strings.TrimSpace(string(b)); c != lastCur[i] {
+					lastCur[i], lastChange[i] = c, time.Now()
+				} else if c != "" && time.Since(lastChange[i]) > itemTO {
+					hung[i] = true
+					pr.cmd.Process.Kill()
+				}
+			}
+		}
+	}
+	tick.Stop()
+	// hung items are re-run alone concurrently, one per space (the signature of
+	// a hang is per space, so further hung workers of the same space add nothing)
+	hangCases := map[string]*report.Case{}
+	hangTried := map[string]bool{}
+	{
+		var mu sync.Mutex
+		var wg sync.WaitGroup
+		for i, pr := range procs {
+			if !hung[i] {
+				continue
+			}
+			curB, _ := os.ReadFile(pr.out + ".cur")
+			cur := strings.Fields(string(curB))
+			if len(cur) != 2 || hangTried[cur[0]] {
+				continue
+			}
+			hangTried[cur[0]] = true
+			idx, _ := strconv.Atoi(cur[1])
+			wg.Add(1)
+			go func(space string, idx int) {
+				defer wg.Done()
+				c := crashCase(p, tier, space, idx, self, true, itemTO)
+				mu.Lock()
+				hangCases[space] = c
+				mu.Unlock()
+			}(cur[0], idx)
+		}
+		wg.Wait()
+	}
+	for i, pr := range procs {
 		if pr.err != nil {
-			// crash of a shard: attribute it to the item it was running
+			// crash or hang of a shard: attribute it to the item it was running
 			curB, _ := os.ReadFile(pr.out + ".cur")
 			cur := strings.Fields(string(curB))
 			if len(cur) == 2 {
 				idx, _ := strconv.Atoi(cur[1])
-				c := crashCase(p, tier, cur[0], idx, self)
+				var c *report.Case
+				if hc, ok := hangCases[cur[0]]; hung[i] && ok && hc != nil {
+					c = hc
+					if _, dup := m.Viol[c.Sig]; dup {
+						c.Count++
+					}
+				} else {
+					c = crashCase(p, tier, cur[0], idx, self, hung[i], itemTO)
+				}
 				if c != nil {
 					c.Property = id
 					m.Viol[c.Sig] = c
+				} else if hung[i] {
+					// the watchdog fired on an item that finishes when run alone (overloaded
+					// machine): nothing is concluded from it; the whole shard is run again
+					// without a per-item limit so that no coverage is lost
+					fmt.Fprintf(os.Stderr, "note: watchdog fired at %s #%s (limit %v) but the item finishes alone; re-running the shard\n", cur[0], cur[1], itemTO)
+					ctx, cancel := context.WithTimeout(context.Background(), time.Until(deadline)+10*time.Minute)
+					re := exec.CommandContext(ctx, self, pr.cmd.Args[1:]...)
+					re.Env, re.Stderr, re.Stdout = pr.cmd.Env, os.Stderr, os.Stderr
+					err := re.Run()
+					cancel()
+					if err != nil {
+						m.Internal = append(m.Internal, fmt.Sprintf("shard re-run after a watchdog hit failed: %v", err))
+						m.Exhaustive = false
+						continue
+					}
+					if b, err := os.ReadFile(pr.out); err == nil {
+						var w Worker
+						if json.Unmarshal(b, &w) == nil {
+							m.add(&w)
+							continue
+						}
+					}
+					m.Internal = append(m.Internal, "shard re-run after a watchdog hit left no result")
 				} else {
 					m.Internal = append(m.Internal, fmt.Sprintf("worker died (%v) at %s #%s but the item does not crash when re-run", pr.err, cur[0], cur[1]))
 				}
@@ -410,7 +550,7 @@ func Check(id, tier string) int {
 		}
 		// confirm before believing: re-run 3x
 		confirmed := true
-		if _, has := report.ReplayerFor(c.Kind); has {
+		if _, has := report.ReplayerFor(c.Kind); has && c.Class != "hang" && c.Class != "crash" { // (those were re-run alone already)
 			for k := 0; k < 3; k++ {
 				_, ok, err := report.Replay(c)
 				if err != nil {
@@ -536,17 +676,36 @@ func Check(id, tier string) int {
 	return exit
 }
 
-// crashCase re-runs one item in a fresh subprocess three times; if it dies
-// every time the crash is a finding about that item.
-func crashCase(p *Property, tier, space string, idx int, self string) *report.Case {
+// runItemProc runs one item in a fresh subprocess under a time limit.
+// It returns (output, died, hung).
+func runItemProc(self, id, tier, space string, idx int, limit time.Duration) (string, bool, bool) {
+	ctx, cancel := context.WithTimeout(context.Background(), limit)
+	defer cancel()
+	cmd := exec.CommandContext(ctx, self, "item", id, tier, space, strconv.Itoa(idx))
+	cmd.WaitDelay = 2 * time.Second
+	b, err := cmd.CombinedOutput()
+	if ctx.Err() != nil {
+		return string(b), false, true
+	}
+	return string(b), err != nil, false
+}
+
+// crashCase re-runs one item in a fresh subprocess (three times for a crash,
+// twice for a hang); if it dies / hangs every time that is a finding about the
+// item.
+func crashCase(p *Property, tier, space string, idx int, self string, wasHung bool, limit time.Duration) *report.Case {
 	var lastOut string
-	for k := 0; k < 3; k++ {
-		cmd := exec.Command(self, "item", p.ID, tier, space, strconv.Itoa(idx))
-		b, err := cmd.CombinedOutput()
-		if err == nil {
+	n := 3
+	if wasHung {
+		n = 2
+	}
+	for k := 0; k < n; k++ {
+		out, died, hung := runItemProc(self, p.ID, tier, space, idx, limit)
+		if !died && !hung {
 			return nil
 		}
-		lastOut = string(b)
+		wasHung = hung
+		lastOut = out
 	}
 	label := ""
 	for _, sp := range p.Spaces(tier) {
@@ -554,15 +713,65 @@ func crashCase(p *Property, tier, space string, idx int, self string) *report.Ca
 			label = sp.Label(idx)
 		}
 	}
+	if len(lastOut) > 4000 {
+		lastOut = lastOut[:4000]
+	}
+	c := &report.Case{Kind: "item", Space: space, Expr: label,
+		Extra:    map[string]interface{}{"tier": tier, "space": space, "index": idx, "output": lastOut, "limit_s": limit.Seconds()},
+		Expected: "item completes", Count: 1}
+	if wasHung {
+		c.Got, c.Class = fmt.Sprintf("no result within %v (re-run alone, twice)", limit), "hang"
+		c.Sig = p.ID + "|" + space + "|hang"
+		return c
+	}
 	first := lastOut
 	if i := strings.Index(first, "\n"); i > 0 {
 		first = first[:i]
 	}
-	if len(lastOut) > 4000 {
-		lastOut = lastOut[:4000]
-	}
-	return &report.Case{Kind: "item", Space: space, Expr: label,
-		Extra:    map[string]interface{}{"tier": tier, "space": space, "index": idx, "output": lastOut},
-		Expected: "item completes", Got: "process died: " + first, Class: "crash",
-		Sig: p.ID + "|" + space + "|crash|" + first, Count: 1}
+	c.Got, c.Class = "process died: "+first, "crash"
+	c.Sig = p.ID + "|" + space + "|crash|" + first
+	return c
+}
+
+func init() {
+	// "item" cases are replayed by re-running the item they came from in a
+	// fresh process: the property holds on the case iff the item completes in
+	// time without reporting the recorded signature
+	report.RegisterReplayer("item", func(c *report.Case) (string, bool, error) {
+		tier, _ := c.Extra["tier"].(string)
+		space, _ := c.Extra["space"].(string)
+		if tier == "" || space == "" || c.Extra["index"] == nil {
+			return "", false, fmt.Errorf("item case without tier/space/index")
+		}
+		var idx int
+		switch v := c.Extra["index"].(type) {
+		case float64:
+			idx = int(v)
+		case int:
+			idx = v
+		default:
+			return "", false, fmt.Errorf("item case: bad index %v", v)
+		}
+		limit := 120 * time.Second
+		if p := Lookup(c.Property); p != nil {
+			limit = p.itemTimeout(tier)
+		}
+		self, _ := os.Executable()
+		out, died, hung := runItemProc(self, c.Property, tier, space, idx, limit)
+		switch {
+		case hung:
+			return fmt.Sprintf("no result within %v", limit), false, nil
+		case died:
+			first := out
+			if i := strings.Index(first, "\n"); i > 0 {
+				first = first[:i]
+			}
+			return "process died: " + first, false, nil
+		case c.Class == "hang" || c.Class == "crash":
+			return "item completes", true, nil
+		case strings.Contains(out, "sig="+c.Sig+" "):
+			return "item reports the recorded violation again", false, nil
+		}
+		return "item completes without the recorded violation", true, nil
+	})
 }
